@@ -398,6 +398,51 @@ func genC02(c *Ctx) {
 			}
 		}
 	}
+	// exception on one side only, or different exceptions: deprecated ids (some carry an exception in their NAME) and
+	// a sample of active ids against GNU ids WITH every listed exception
+	gnu := []string{"GPL-2.0-only", "GPL-3.0-only", "GPL-2.0-or-later", "LGPL-2.0-or-later", "GPL-3.0"}
+	var left []string
+	for _, x := range tDeprec {
+		if plainID(x) {
+			left = append(left, x)
+		}
+	}
+	nAct := 12
+	if c.thorough() {
+		nAct = 120
+	}
+	for k := 0; k < nAct; k++ {
+		if x := tActive[c.rng.Intn(len(tActive))]; plainID(x) {
+			left = append(left, x)
+		}
+	}
+	for _, x := range left {
+		for _, e := range tExcs {
+			y := gnu[c.rng.Intn(len(gnu))]
+			check(x, c.rng.Intn(2) == 0, "", y, false, e)
+			check(x, false, e, x, c.rng.Intn(2) == 0, "")
+			if strings.Contains(strings.ToLower(x), "with") || strings.Contains(x, "eCos") || strings.Contains(x, "wxWindows") {
+				for _, y2 := range gnu {
+					check(x, false, "", y2, false, e)
+					check(x, true, "", y2, false, e)
+				}
+			}
+		}
+	}
+	// the exception is compared like the id: in any letter case (list casing on one side, re-cased on the other)
+	for _, e := range tExcs {
+		for _, rc := range []string{strings.ToLower(e), strings.ToUpper(e), caseMix(c.rng, e)} {
+			for _, pr := range [][2]string{{"GPL-2.0-only", "GPL-2.0-only"}, {"LGPL-2.1+", "LGPL-3.0-only"}, {"MIT", "MIT"}} {
+				a, b := pr[0]+" WITH "+rc, pr[1]+" WITH "+e
+				for _, q := range [][2]string{{a, b}, {b, a}} {
+					if r := c.S(q[0], []string{q[1]}); r != unknown && r != "T" {
+						c.fail("Satisfies", map[string]interface{}{"expression": q[0], "allowed": []string{q[1]}}, r, "T", "identical exception (ids on the SPDX lists are compared in any letter case), matching licenses")
+					}
+				}
+				c.count("exception_case_pairs")
+			}
+		}
+	}
 	// every listed id against the listed ids that share its base (X, X-only, X-or-later): inside or outside the table
 	stripSfx := func(x string) string { return strings.TrimSuffix(strings.TrimSuffix(x, "-only"), "-or-later") }
 	groups := map[string][]string{}
